@@ -52,6 +52,9 @@ CANARIES = {
     "C08": [
         ("validate-skipped", "stix2/markings/granular_markings.py", "delete-call-stmt", ["add_markings", "utils.validate"], "C08.every-function"),
         ("super-chain-cut", "stix2/v20/sdo.py", "delete-call-stmt", ["Indicator._check_object_constraints", "super("], "C08.every-construction"),
+        ("descent-dict-only", "stix2/markings/utils.py", "text", ["isinstance(varobj, collections.abc.Mapping)", "isinstance(varobj, dict)"], "C08.descends-into-objects"),
+        ("later-step-lower-case-only", "stix2/properties.py", "text", ["|[a-zA-Z0-9_-]{1,256}))*|id)", "|[a-z0-9_-]{1,250}))*|id)"], "C08.syntax-agreement"),
+        ("first-selector-only", "stix2/markings/utils.py", "loop-once", ["validate"], "C08.reject"),
     ],
     "C09": [
         ("order-entry-lost", "stix2/equivalence/pattern/compare/comparison.py", "drop-list-element", ["'LIKE'"], "C09.producers-handlers"),
@@ -113,6 +116,17 @@ def build_overlay(root, relpath, opname, needles):
             src = f.read()
     except OSError:
         return None
+    if opname == "text":
+        # plain replacement of one expression text by another (first occurrence); must still compile
+        old, new = needles
+        if old not in src:
+            return None
+        out = src.replace(old, new, 1)
+        try:
+            compile(out, relpath, "exec")
+        except SyntaxError:
+            return None
+        return {relpath: out}
     idx = mutate.find_site(src, opname, lambda d: all(n in d for n in needles))
     if idx is None:
         return None
